@@ -125,6 +125,8 @@ class C04(Check):
             return {"engine": "sqlite", "config": cfg, "env": {"folder": False}, "ops": [["calibrate", rng.randint(1, 4)]],
                     "sqlite_prestate": rng.random() < 0.5, "sim_seed": rng.randrange(2 ** 31)}
         ops = []
+        if rng.random() < 0.12:
+            calsim.make_scripted_convergence(cfg, rng)     # calibrate() may return early: the folder must hold the stopping batch
         if rng.random() < 0.15:
             ops.append(["checkpoint", "Z"])          # zero-row calibrator
         for _ in range(rng.randint(1, 4)):
@@ -133,13 +135,20 @@ class C04(Check):
                 ops.append(["calibrate", rng.randint(1, 4)])
             elif u < 0.7:
                 ops.append(["checkpoint", rng.choice("AB")])
-            elif u < 0.8:
+            elif u < 0.76:
                 ops.append(["restore"])
                 ops.append(["calibrate", rng.randint(1, 3)])
+            elif u < 0.82:
+                # roll back: back-up, go on, return to the back-up and continue into the original folder
+                ops.append(["checkpoint", "R"])
+                ops.append(["calibrate", rng.randint(1, 3)])
+                ops.append(["restore", "R"])
+                ops.append(["calibrate", rng.randint(1, 2)])
             elif u < 0.93:
                 c2 = copy.deepcopy(cfg)
-                variant = rng.choice(["other-seed", "other-ensemble", "other-length", "other-dims", "other-lineup"])
-                c2["cal_seed"] = rng.randrange(2 ** 31)
+                variant = rng.choice(["same-run-again", "same-run-again", "other-seed", "other-ensemble", "other-length", "other-dims", "other-lineup"])
+                if variant != "same-run-again":
+                    c2["cal_seed"] = rng.randrange(2 ** 31)
                 if variant == "other-ensemble":
                     c2["ensemble"] = cfg["ensemble"] % 3 + 1
                 elif variant == "other-length":
